@@ -18,6 +18,16 @@ WORK = os.path.join(VERIF, "work")
 REPLAYS = os.path.join(VERIF, "replays")
 EVIDENCE = os.path.join(VERIF, "evidence")
 REPO = "/repo"
+# Development aid only (tools/run_seeded.sh): run the same checks against a scratch COPY of the repository and harness,
+# so that seeded changes can be tried without touching /repo.  Registered commands never set this.
+_ALT = os.environ.get("VERIF_ALT")
+if _ALT:
+    HARNESS = os.path.join(_ALT, "harness")
+    BUILD = os.path.join(_ALT, "build")
+    WORK = os.path.join(_ALT, "work")
+    REPLAYS = os.path.join(_ALT, "replays")
+    EVIDENCE = os.path.join(_ALT, "evidence")
+    REPO = os.path.join(_ALT, "repo")
 GUARD = "--cfg curve25519_dalek_verif"
 
 P = 2**255 - 19
